@@ -63,6 +63,5 @@ package trafficpattern
 //@   assert_call Config.generatePaddingPattern: [C16] (old(c.original.Seed) != nil ==> arg0 == int(old(*c.original.Seed))) && (arg1 <==> (old(c.original.UnlockAll) != nil && old(*c.original.UnlockAll)))
 //@   assert_call Config.generateLowEntropyPattern: [C16] (old(c.original.Seed) != nil ==> arg0 == int(old(*c.original.Seed))) && (arg1 <==> (old(c.original.UnlockAll) != nil && old(*c.original.UnlockAll)))
 
-
 //@ func Validate(pattern *appctlpb.TrafficPattern) (err error)
 //@   trusted a pure check of the pattern's fields (loops over nonce prefixes); assumed to write nothing
